@@ -94,6 +94,11 @@ def builtin_exc(name, args=()):
 STRUCT_ERROR_MRO = ["struct.error", "Exception", "BaseException", "object"]
 
 
+import os
+
+TRACE_CALLS = bool(os.environ.get("PYVC_TRACE_CALLS"))
+
+
 class Interp:
     def __init__(self, program, registry, ctx, top=None):
         self.P = program
@@ -113,6 +118,14 @@ class Interp:
 
     # ======================================================================== helpers
     def raise_(self, name, *args):
+        try:
+            self._raise(name, *args)
+        except PyRaise as e:
+            # where the interpreted program raised it (reported with a failed raises.only / raises.justified obligation)
+            e.exc.origin = " <- ".join(f"{fr.fi.dotted}:{getattr(fr, 'lineno', '?')}" for fr in reversed(self.frames[-3:]))
+            raise
+
+    def _raise(self, name, *args):
         if name == "struct.error":
             raise PyRaise(SExc("struct.error", STRUCT_ERROR_MRO, args))
         cls = self.P.find_class(name) if not hasattr(_pybuiltins, name) else None
@@ -564,6 +577,17 @@ class Interp:
         if isinstance(op, (ast.In, ast.NotIn)):
             r = self.contains(b, a)
             return r if isinstance(op, ast.In) else self._not(r)
+        if isinstance(a, tuple) and isinstance(b, tuple):
+            # lexicographic order on tuples
+            from .builtins import _lt
+
+            if isinstance(op, ast.Lt):
+                return _lt(self, a, b)
+            if isinstance(op, ast.Gt):
+                return _lt(self, b, a)
+            if isinstance(op, ast.LtE):
+                return self._not(_lt(self, b, a))
+            return self._not(_lt(self, a, b))
         x, y = self.as_int(a), self.as_int(b)
         if isinstance(x, int) and isinstance(y, int):
             return {ast.Lt: x < y, ast.LtE: x <= y, ast.Gt: x > y, ast.GtE: x >= y}[type(op)]
@@ -732,8 +756,20 @@ class Interp:
         raise OutOfReach(f"int op {type(op).__name__}")
 
     def shift_symbolic(self, a, b, left):
-        # shift by a symbolic amount: finite case split when the amount is provably within 0..64*8
-        for k in range(0, 1025):
+        # shift by a symbolic amount: a finite case split when the amount is provably small, else an uninterpreted SHL/SHR
+        # with the facts that are true of it (sign, monotonicity in the operand is not needed by any contract)
+        iv = self.ctx.interval(simp(Z(b)))
+        small = iv is not None and iv[0] is not None and iv[1] is not None and iv[0] >= 0 and iv[1] <= 64
+        if not small and not self.ctx.entails(z3.And(Z(b) >= 0, Z(b) <= 64)):
+            if self.branch(Z(b) < 0):
+                self.raise_("ValueError")
+            f = z3.Function("SHL" if left else "SHR", z3.IntSort(), z3.IntSort(), z3.IntSort())
+            r = f(Z(a), Z(b))
+            self.ctx.assume(z3.Implies(Z(a) >= 0, r >= 0))
+            if not left:
+                self.ctx.assume(z3.Implies(Z(a) >= 0, r <= Z(a)))
+            return r
+        for k in range(0, 65):
             if self.ctx.entails(Z(b) == k):
                 return self.int_binop(ast.LShift() if left else ast.RShift(), a, k)
             if self.ctx.solver.check(Z(b) == k) != z3.unsat:
@@ -794,6 +830,9 @@ class Interp:
         if isinstance(op, ast.BitAnd):
             if self.ctx.entails(z3.And(Z(a) >= 0, Z(a) < 65536, Z(b) >= 0, Z(b) < 65536)):
                 return simp(z3.BV2Int(z3.Int2BV(Z(a), 16) & z3.Int2BV(Z(b), 16)))
+        import os
+        if os.environ.get("PYVC_DEBUG"):
+            print("BITOP", op, simp(Z(a)), simp(Z(b)), file=__import__("sys").stderr)
         raise OutOfReach("bit operation on two symbolic integers")
 
     # ------------------------------------------------------------------ attribute / subscript
@@ -978,7 +1017,22 @@ class Interp:
         g = node.generators[0]
         it = self.eval(g.iter, env)
         if isinstance(it, SList):
-            raise OutOfReach("comprehension over a list of symbolic length")
+            # element-wise map over a list of symbolic length: the element expression is evaluated once on an arbitrary element
+            # (so that anything it can raise is raised on this path), the result is the list of the same length whose elements
+            # are the expression on the corresponding element
+            if g.ifs:
+                raise OutOfReach("filtered comprehension over a list of symbolic length")
+
+            def at(j):
+                e2 = Env(env.module, env)
+                self.assign(g.target, it.elem(j), e2)
+                return self.eval(node.elt, e2)
+
+            if not self.ctx.entails(Z(it.length) <= 0):
+                j = fresh_int("comp_j")
+                self.ctx.assume(z3.And(j >= 0, j < Z(it.length)))
+                at(j)
+            return SList(it.length, at)
         out = []
         for item in self.iter_values(it):
             e2 = Env(env.module, env)
@@ -1139,6 +1193,9 @@ class Interp:
         spec = self.registry.contract_for(fi.dotted)
         is_top = self.top is not None and fi.ref == self.top.ref and depth == 0
         self.ctx.tick("ticks")
+        if TRACE_CALLS:
+            import sys, time
+            print(f"[{os.getpid()} {time.time() % 1000:7.2f}] {'  ' * depth}{fi.dotted} taken={len(self.ctx.taken)}", file=sys.stderr)
         hook = self.on_call.get(fi.dotted)
         if hook is not None:
             hook(self, bound)
@@ -1262,6 +1319,8 @@ class Interp:
         m = getattr(self, "s_" + type(node).__name__, None)
         if m is None:
             raise OutOfReach(f"statement {type(node).__name__}")
+        if self.frames:
+            self.frames[-1].lineno = node.lineno
         return m(node, env)
 
     def s_Expr(self, node, env):
